@@ -6,6 +6,7 @@ pub mod c23;
 pub mod c25;
 pub mod c26;
 pub mod c30;
+pub mod c30bp;
 pub mod c31;
 pub mod stress;
 pub mod srvchk;
